@@ -13,12 +13,13 @@ open Cppcheck.Gen.ExceptionFunnel
 /-- the translator's certificate is inductive for every site except the alarms -/
 theorem cert_closed : closed prog cert types alarmIds = true := by decide +kernel
 
-/-- no exception type can propagate out of `main` / static initialisation under the certificate -/
+/-- no exception type can propagate out of an entry point (`main`, static initialisation, the analysis API) under the certificate -/
 theorem cert_entries_clear : entriesClear prog cert types = true := by decide +kernel
 
 /-- Every throw site and every call of a throwing std function in the working tree either is one of the
-listed alarms or cannot terminate the process: along no call chain (of any length, through virtual calls,
-lambdas and function references) does its exception leave an entry point uncaught. -/
+listed alarms or is contained: along no call chain (of any length, through virtual calls, lambdas and
+function references) does its exception leave an entry point uncaught — neither `main` (abnormal
+termination) nor the analysis API (problem not reported as a finding). -/
 theorem funnel_complete : ∀ s ∈ prog.sites, s.id ∈ alarmIds ∨ ¬ Aborts prog s := by
   intro s hs
   by_cases h : s.id ∈ alarmIds
